@@ -18,3 +18,5 @@ open PubModel.C17
 #print axioms tarzip_contained
 #print axioms tarzip_hostile_refused
 #print axioms zipfile_roundtrip
+#print axioms firstfile_writes_only_dest
+#print axioms gen_firstfile_dest_only
